@@ -151,6 +151,13 @@ structure Second where
   fin     : End2
 deriving DecidableEq, Repr
 
+/-- a stream the stream manager holds for a session: the peer it leads to, and whether its `Close()` will return an
+    error (the remote side already reset it, …) -/
+structure Strm where
+  peer       : Nat
+  failsClose : Bool
+deriving DecidableEq, Repr
+
 structure Sess where
   sid       : Sid
   role      : Role
@@ -158,6 +165,8 @@ structure Sess where
   out       : Outcome
   retryable : Bool := false         -- `Retryable()` of the processes (signing): a failed first attempt enters `handleError`
   second    : Option Second := none -- the second attempt, if `handleError` classifies the failure (silent | comm | subset)
+  opened    : List Strm := []       -- the streams the session's broadcasts open (one per peer written to), each
+                                    -- with the fate of its Close() at session end
 deriving Repr
 
 /-- the registries a session touches (kept for the retried-process model below) -/
@@ -188,7 +197,7 @@ structure Led where
   pending  : List Sid
   live     : Sid → List Blk   -- MPC communication: live subscriptions per session id (`subscribersMap[sessionID]`;
                               -- a subscription id carries its session id, so a release only ever looks there)
-  streams  : List Sid         -- MPC communication: session ids with open streams
+  streams  : Sid → List Strm  -- MPC communication: `streamsBySessionID`
   elive    : Sid → List Blk   -- election communication: live subscriptions per session id
   estreams : List Sid         -- election communication: session ids with open streams
   next     : Nat              -- handles given out so far
@@ -197,7 +206,7 @@ structure Led where
 
 def sizeOf' (bs : List Blk) : Nat := (bs.map (·.size)).sum
 
-def upd (f : Sid → List Blk) (sid : Sid) (v : List Blk) : Sid → List Blk := fun s => if s = sid then v else f s
+def upd {α : Type} (f : Sid → List α) (sid : Sid) (v : List α) : Sid → List α := fun s => if s = sid then v else f s
 
 def Led.sub (l : Led) (sid : Sid) (k : Nat) : Led × Nat :=
   ({ l with live := upd l.live sid (l.live sid ++ [⟨sid, l.next, k⟩]), next := l.next + 1, subs := l.subs + k }, l.next)
@@ -228,7 +237,8 @@ structure Report where
   unsub    : Nat          -- of those, released
   close    : Nat          -- CloseSession calls
   live     : Nat          -- subscriptions of the session id still registered at exit
-  streams  : Nat          -- 1 if streams of the session id are still held at exit
+  streams  : Nat          -- streams of the session id still registered at exit
+  stale    : Nat          -- streams of this session that were refused because a stale one was still registered
   runs     : List Nat     -- per process: Run calls
   stops    : List Nat     -- per process: Stop calls
   pend     : Bool         -- flag at exit
@@ -245,6 +255,19 @@ def waitSubs : Role → Nat
 def waitSubs2 : Elected → Nat
   | .self => 1
   | _ => 2
+
+/-- `AddStream` for every stream a session opens: a peer that already has an entry under the session id keeps it -/
+def addStreams (cur new : List Strm) : List Strm :=
+  cur ++ new.filter (fun x => !cur.any (·.peer = x.peer))
+
+/-- streams of a session that `AddStream` ignored because a stale entry was still registered -/
+def staleHits (cur new : List Strm) : Nat := (new.filter (fun x => cur.any (·.peer = x.peer))).length
+
+/-- `ReleaseStreams`: every stream is closed - an error of `Close()` is only logged - and the session's entry deleted -/
+def releaseAll (_ : List Strm) : List Strm := []
+
+/-- the seeded variant: a stream whose `Close()` fails stays registered "so that closing is tried again" -/
+def releaseKeepFailed (ss : List Strm) : List Strm := ss.filter (·.failsClose)
 
 /-- a bully election (repaired elector): six subscriptions and the election streams, all given back when it ends -/
 def election (l : Led) (sid : Sid) : Led :=
@@ -273,10 +296,10 @@ def secondAttempt (elect : Led → Sid → Led) (l : Led) (s : Sess) (t : Second
 def Sess.handled (s : Sess) : Bool := s.retryable && !s.out.retOk
 
 /-- `Execute` for one session, in the order the code performs the calls. `elect` = the elector's behaviour. -/
-def executeWith (elect : Led → Sid → Led) (l : Led) (s : Sess) : Led × Report :=
+def executeWith (elect : Led → Sid → Led) (release : List Strm → List Strm) (l : Led) (s : Sess) : Led × Report :=
   if s.sid ∈ l.pending then
     -- refused before anything is registered; the (never started) processes are stopped
-    (l, ⟨.refused, 0, 0, 0, liveOf l.live s.sid, if s.sid ∈ l.streams then 1 else 0,
+    (l, ⟨.refused, 0, 0, 0, liveOf l.live s.sid, (l.streams s.sid).length, 0,
         List.replicate s.nproc 0, List.replicate s.nproc 1, true,
         liveOf l.elive s.sid, if s.sid ∈ l.estreams then 1 else 0⟩)
   else
@@ -284,7 +307,7 @@ def executeWith (elect : Led → Sid → Led) (l : Led) (s : Sess) : Led × Repo
     -- watchExecution + start (waitForStart | initiate) subscribe
     let (l2, a) := l1.sub s.sid (waitSubs s.role)
     -- broadcasting (initiate / ready / start messages) opens streams under the session id
-    let l3 := { l2 with streams := s.sid :: l2.streams }
+    let l3 := { l2 with streams := upd l2.streams s.sid (addStreams (l2.streams s.sid) s.opened) }
     -- every process subscribes in Run
     let (l4, b1) := if s.out.ran then
         let (l', b) := l3.sub s.sid s.nproc
@@ -301,7 +324,7 @@ def executeWith (elect : Led → Sid → Led) (l : Led) (s : Sess) : Led × Repo
         (lb.unsub s.sid w2, b)
       else (l5, b1)
     -- Execute's deferred block: CloseSession; flag := false; Stop every process
-    let l7 := { l6 with streams := l6.streams.filter (· ≠ s.sid) }
+    let l7 := { l6 with streams := upd l6.streams s.sid (release (l6.streams s.sid)) }
     let l8 := { l7 with pending := l7.pending.filter (· ≠ s.sid) }
     let l9 := l8.unsubOpt s.sid b
     let retOk := if s.handled then (match s.second with
@@ -312,12 +335,12 @@ def executeWith (elect : Led → Sid → Led) (l : Led) (s : Sess) : Led × Repo
       | none => false)
     (l9, ⟨if retOk then .ok else .err,
           l9.subs - l.subs, l9.unsubs - l.unsubs, 1,
-          liveOf l9.live s.sid, if s.sid ∈ l9.streams then 1 else 0,
+          liveOf l9.live s.sid, (l9.streams s.sid).length, staleHits (l.streams s.sid) s.opened,
           List.replicate s.nproc ((if s.out.ran then 1 else 0) + (if ran2 then 1 else 0)), List.replicate s.nproc 1,
           decide (s.sid ∈ l9.pending),
           liveOf l9.elive s.sid, if s.sid ∈ l9.estreams then 1 else 0⟩)
 
-def execute : Led → Sess → Led × Report := executeWith election
+def execute : Led → Sess → Led × Report := executeWith election releaseAll
 
 /-- sessions one after another on one coordinator -/
 def executeAll (l : Led) : List Sess → Led × List Report
@@ -329,7 +352,7 @@ def executeAll (l : Led) : List Sess → Led × List Report
 
 /-- the property of one finished session, on a report (the driver evaluates it on the implementation's report) -/
 def Clean (nproc : Nat) (rep : Report) : Prop :=
-  rep.ret ≠ .refused ∧ rep.sub = rep.unsub ∧ 1 ≤ rep.close ∧ rep.live = 0 ∧ rep.streams = 0 ∧
+  rep.ret ≠ .refused ∧ rep.sub = rep.unsub ∧ 1 ≤ rep.close ∧ rep.live = 0 ∧ rep.streams = 0 ∧ rep.stale = 0 ∧
   rep.stops = List.replicate nproc 1 ∧ (∀ n ∈ rep.runs, n ≤ 2) ∧ rep.pend = false ∧
   rep.elive = 0 ∧ rep.estreams = 0
 
@@ -337,9 +360,9 @@ instance (n : Nat) (rep : Report) : Decidable (Clean n rep) := by unfold Clean; 
 
 /-- nothing left of any session -/
 def Led.Idle (l : Led) : Prop :=
-  l.pending = [] ∧ (∀ s, l.live s = []) ∧ l.streams = [] ∧ (∀ s, l.elive s = []) ∧ l.estreams = []
+  l.pending = [] ∧ (∀ s, l.live s = []) ∧ (∀ s, l.streams s = []) ∧ (∀ s, l.elive s = []) ∧ l.estreams = []
 
-def Led.empty (n : Nat) : Led := ⟨[], fun _ => [], [], fun _ => [], [], n, 0, 0⟩
+def Led.empty (n : Nat) : Led := ⟨[], fun _ => [], fun _ => [], fun _ => [], [], n, 0, 0⟩
 
 /-! ### a retryable (signing) process object that is Run several times and stopped once -/
 
